@@ -1,1 +1,401 @@
 //! Verification hooks (tablets); see `verif/mod.rs`.
+//!
+//! H-TABLETS: drive the real `TabletsInfo` of a real [`ClusterState`] from outside the crate.
+//!
+//! * a tablet is learnt from **payload bytes** (`tablets-routing-v1` custom payload value) through
+//!   the production parser `RawTablet::from_custom_payload`, the production translator
+//!   `Tablet::from_raw_tablet` and `ClusterState::update_tablets` on a clone of the state, exactly
+//!   as `ClusterWorker` does it;
+//! * a metadata refresh (peers + schema) goes through the production steps
+//!   `calculate_new_topology` (reject-all host filter => `Node::new_disabled`, no pools, no tasks),
+//!   `perform_tablets_maintenance` (which derives removed / re-created nodes itself) and
+//!   `ReplicaLocator::new` - either through the synchronous twins in `cluster/state.rs` or through
+//!   the real async `ClusterState::new` / `new_updated` / `new_with_updated_topology`;
+//! * lookups go through the public `ReplicaLocator::replicas_for_token`;
+//! * the private range list, replica lists (all / per DC), `failed` markers and both
+//!   `has_unknown_replicas` flags are readable.
+//!
+//! Nothing here changes behaviour; every function is a pass-through or a read-only view.
+
+use std::collections::{BTreeMap, HashMap};
+use std::net::SocketAddr;
+use std::sync::Arc;
+
+use bytes::Bytes;
+use uuid::Uuid;
+
+use crate::cluster::metadata::{Keyspace, MaterializedView, Metadata, Peer, Strategy, Table};
+use crate::cluster::node::{Node, NodeAddr};
+use crate::cluster::{ClusterState, NodeConfig};
+use crate::frame::response::result::TableSpec;
+use crate::network::{ConnectionConfig, PoolConfig, TcpSocketOptions};
+use crate::observability::metrics::Metrics;
+use crate::policies::host_filter::HostFilter;
+use crate::policies::reconnect::ExponentialReconnectPolicy;
+use crate::routing::locator::tablets::RawTablet;
+use crate::routing::{Shard, ShardAwarePortRange, Token};
+
+/// One row of `system.peers` / `system.local`.
+#[derive(Clone, Debug, PartialEq, Eq)]
+pub struct NodeSpec {
+    pub host_id: Uuid,
+    pub address: SocketAddr,
+    pub datacenter: Option<String>,
+    pub rack: Option<String>,
+}
+
+/// One keyspace of the fetched schema: only what tablet maintenance looks at.
+#[derive(Clone, Debug, PartialEq, Eq)]
+pub struct KeyspaceSpec {
+    pub name: String,
+    pub tablet_based: bool,
+    pub tables: Vec<String>,
+    pub views: Vec<String>,
+}
+
+/// A replica as the driver holds it.
+#[derive(Clone, Debug, PartialEq, Eq, PartialOrd, Ord)]
+pub struct ReplicaView {
+    pub host_id: Uuid,
+    pub address: SocketAddr,
+    pub datacenter: Option<String>,
+    pub shard: u32,
+    /// The `Arc<Node>` held is the very object `ClusterState::known_nodes` holds for this host id.
+    pub is_current_node_object: bool,
+}
+
+#[derive(Clone, Debug, PartialEq, Eq)]
+pub struct TabletDump {
+    pub first_token: i64,
+    pub last_token: i64,
+    pub all: Vec<ReplicaView>,
+    pub per_dc: BTreeMap<String, Vec<ReplicaView>>,
+    /// `Tablet::failed`: the raw replica list kept when some uuid could not be resolved.
+    pub failed: Option<Vec<(Uuid, u32)>>,
+}
+
+#[derive(Clone, Debug, PartialEq, Eq)]
+pub struct TableDump {
+    pub tablets: Vec<TabletDump>,
+    pub has_unknown_replicas: bool,
+}
+
+/// What the production payload parser made of a custom payload.
+#[derive(Clone, Debug, PartialEq, Eq)]
+pub enum PayloadOutcome {
+    /// No `tablets-routing-v1` key (cannot happen through [`World::learn_from_payload`]).
+    NoPayload,
+    Rejected(String),
+    /// Stored range (inclusive both ends) and raw replicas as parsed.
+    Accepted {
+        first_token: i64,
+        last_token: i64,
+        replicas: Vec<(Uuid, u32)>,
+    },
+}
+
+struct RejectAll;
+impl HostFilter for RejectAll {
+    fn accept(&self, _peer: &Peer) -> bool {
+        false
+    }
+}
+
+fn node_config() -> NodeConfig {
+    let (connectivity_events_sender, _) = tokio::sync::mpsc::unbounded_channel();
+    // Never used: every node is disabled (reject-all filter), so no pool is ever built from it.
+    let pool_config = PoolConfig {
+        connection_config: ConnectionConfig {
+            local_ip_address: None,
+            shard_aware_local_port_range: ShardAwarePortRange::EPHEMERAL_PORT_RANGE,
+            compression: None,
+            tcp_socket_options: TcpSocketOptions::default(),
+            timestamp_generator: None,
+            tls_provider: None,
+            connect_timeout: std::time::Duration::from_secs(5),
+            event_sender: None,
+            default_consistency: Default::default(),
+            authenticator: None,
+            address_translator: None,
+            write_coalescing_delay: None,
+            keepalive_interval: None,
+            keepalive_timeout: None,
+            tablet_sender: None,
+            identity: Default::default(),
+        },
+        pool_size: Default::default(),
+        can_use_shard_aware_port: true,
+        reconnect_policy: Arc::new(ExponentialReconnectPolicy::new()),
+    };
+    NodeConfig {
+        pool_config,
+        used_keyspace: None,
+        connectivity_events_sender,
+        metrics: Metrics::new().into(),
+    }
+}
+
+fn empty_table() -> Table {
+    Table {
+        columns: HashMap::new(),
+        partition_key: Vec::new(),
+        clustering_key: Vec::new(),
+        partitioner: None,
+        pk_column_specs: Vec::new(),
+    }
+}
+
+fn metadata(nodes: &[NodeSpec], keyspaces: &[KeyspaceSpec]) -> Metadata {
+    Metadata {
+        peers: peers(nodes),
+        keyspaces: keyspaces
+            .iter()
+            .map(|k| {
+                let ks = Keyspace {
+                    strategy: Strategy::LocalStrategy,
+                    durable_writes: true,
+                    tablet_based: k.tablet_based,
+                    tables: k
+                        .tables
+                        .iter()
+                        .map(|t| (t.clone(), empty_table()))
+                        .collect(),
+                    views: k
+                        .views
+                        .iter()
+                        .map(|v| {
+                            (
+                                v.clone(),
+                                MaterializedView {
+                                    view_metadata: empty_table(),
+                                    base_table_name: "base".to_owned(),
+                                },
+                            )
+                        })
+                        .collect(),
+                    user_defined_types: HashMap::new(),
+                };
+                (k.name.clone(), Ok(ks))
+            })
+            .collect(),
+        cluster_name: Some("verif".to_owned()),
+        client_routes: None,
+    }
+}
+
+fn peers(nodes: &[NodeSpec]) -> Vec<Peer> {
+    nodes
+        .iter()
+        .map(|n| Peer {
+            host_id: n.host_id,
+            address: NodeAddr::Translatable(n.address),
+            tokens: Vec::new(),
+            datacenter: n.datacenter.clone(),
+            rack: n.rack.clone(),
+        })
+        .collect()
+}
+
+/// A real `ClusterState` (empty token ring, disabled nodes) whose tablet info is under test.
+pub struct World {
+    state: ClusterState,
+    node_config: NodeConfig,
+}
+
+impl World {
+    /// Synchronous twin of `ClusterState::new` (no runtime needed).
+    pub fn new(nodes: &[NodeSpec], keyspaces: &[KeyspaceSpec]) -> World {
+        let node_config = node_config();
+        let state =
+            ClusterState::verif_new_sync(metadata(nodes, keyspaces), &node_config, Some(&RejectAll));
+        World { state, node_config }
+    }
+
+    /// The production `ClusterState::new`. Must run inside a tokio runtime.
+    pub async fn new_production(nodes: &[NodeSpec], keyspaces: &[KeyspaceSpec]) -> World {
+        let node_config = node_config();
+        let state =
+            ClusterState::new(metadata(nodes, keyspaces), &node_config, Some(&RejectAll)).await;
+        World { state, node_config }
+    }
+
+    /// Full metadata refresh, synchronous twin of `ClusterState::new_updated`.
+    pub fn refresh(&mut self, nodes: &[NodeSpec], keyspaces: &[KeyspaceSpec]) {
+        self.state = self.state.verif_new_updated_sync(
+            metadata(nodes, keyspaces),
+            &self.node_config,
+            Some(&RejectAll),
+        );
+    }
+
+    /// Full metadata refresh through the production `ClusterState::new_updated`.
+    pub async fn refresh_production(&mut self, nodes: &[NodeSpec], keyspaces: &[KeyspaceSpec]) {
+        self.state = self
+            .state
+            .new_updated(
+                metadata(nodes, keyspaces),
+                &self.node_config,
+                Some(&RejectAll),
+            )
+            .await;
+    }
+
+    /// Topology-only refresh through the production `ClusterState::new_with_updated_topology`
+    /// (schema of the current state is reused).
+    pub async fn refresh_topology_production(&mut self, nodes: &[NodeSpec]) {
+        self.state = self
+            .state
+            .new_with_updated_topology(peers(nodes), &self.node_config, Some(&RejectAll))
+            .await;
+    }
+
+    /// The production payload parser alone.
+    pub fn parse_payload(payload: &[u8]) -> PayloadOutcome {
+        let mut map: HashMap<String, Bytes> = HashMap::new();
+        map.insert(
+            "tablets-routing-v1".to_owned(),
+            Bytes::copy_from_slice(payload),
+        );
+        Self::parse_custom_payload(&map).0
+    }
+
+    fn parse_custom_payload(map: &HashMap<String, Bytes>) -> (PayloadOutcome, Option<RawTablet>) {
+        match RawTablet::from_custom_payload(map) {
+            None => (PayloadOutcome::NoPayload, None),
+            Some(Err(e)) => (PayloadOutcome::Rejected(e.to_string()), None),
+            Some(Ok(raw)) => {
+                let (first_token, last_token, replicas) = raw.verif_parts();
+                let outcome = PayloadOutcome::Accepted {
+                    first_token,
+                    last_token,
+                    replicas: replicas.to_vec(),
+                };
+                (outcome, Some(raw))
+            }
+        }
+    }
+
+    /// A response for `keyspace.table` carried this `tablets-routing-v1` payload value: parse it
+    /// with the production parser and, if accepted, apply it the way `ClusterWorker` does
+    /// (clone the state, `update_tablets`, replace the state).
+    pub fn learn_from_payload(&mut self, keyspace: &str, table: &str, payload: &[u8]) -> PayloadOutcome {
+        let mut map: HashMap<String, Bytes> = HashMap::new();
+        map.insert(
+            "tablets-routing-v1".to_owned(),
+            Bytes::copy_from_slice(payload),
+        );
+        let (outcome, raw) = Self::parse_custom_payload(&map);
+        if let Some(raw) = raw {
+            let mut new_state = self.state.clone();
+            new_state.verif_update_tablets(vec![(
+                TableSpec::owned(keyspace.to_owned(), table.to_owned()),
+                raw,
+            )]);
+            self.state = new_state;
+        }
+        outcome
+    }
+
+    fn view(&self, node: &Arc<Node>, shard: Shard) -> ReplicaView {
+        ReplicaView {
+            host_id: node.host_id,
+            address: node.address.into_inner(),
+            datacenter: node.datacenter.clone(),
+            shard,
+            is_current_node_object: self
+                .state
+                .known_nodes
+                .get(&node.host_id)
+                .is_some_and(|n| Arc::ptr_eq(n, node)),
+        }
+    }
+
+    /// The stored tablets of a table (`None`: the table has no entry, i.e. is not treated as
+    /// tablet-based) with the hidden per-table flag.
+    pub fn table_dump(&self, keyspace: &str, table: &str) -> Option<TableDump> {
+        let spec = TableSpec::borrowed(keyspace, table);
+        let tt = self.state.locator.tablets.tablets_for_table(&spec)?;
+        let tablets = tt
+            .verif_tablets()
+            .into_iter()
+            .map(|t| TabletDump {
+                first_token: t.first_token,
+                last_token: t.last_token,
+                all: t.all.iter().map(|(n, s)| self.view(n, *s)).collect(),
+                per_dc: t
+                    .per_dc
+                    .iter()
+                    .map(|(dc, v)| (dc.clone(), v.iter().map(|(n, s)| self.view(n, *s)).collect()))
+                    .collect(),
+                failed: t.failed.map(|f| f.to_vec()),
+            })
+            .collect();
+        Some(TableDump {
+            tablets,
+            has_unknown_replicas: tt.verif_has_unknown_replicas(),
+        })
+    }
+
+    /// `TabletsInfo::has_unknown_replicas`.
+    pub fn info_has_unknown_replicas(&self) -> bool {
+        self.state.locator.tablets.verif_has_unknown_replicas()
+    }
+
+    /// Tables that have a tablet entry, sorted.
+    pub fn tables(&self) -> Vec<(String, String)> {
+        let mut v: Vec<(String, String)> = self
+            .state
+            .locator
+            .tablets
+            .verif_tables()
+            .into_iter()
+            .map(|s| (s.ks_name().to_owned(), s.table_name().to_owned()))
+            .collect();
+        v.sort();
+        v
+    }
+
+    /// Replicas for a token through the public `ReplicaLocator::replicas_for_token`
+    /// (`datacenter`: restrict to one DC). `None` when the table has no tablet entry (the locator
+    /// would then answer from the token ring, which is not the subject here).
+    pub fn lookup(
+        &self,
+        keyspace: &str,
+        table: &str,
+        token: i64,
+        datacenter: Option<&str>,
+    ) -> Option<Vec<ReplicaView>> {
+        let spec = TableSpec::borrowed(keyspace, table);
+        self.state.locator.tablets.tablets_for_table(&spec)?;
+        let strategy = Strategy::LocalStrategy;
+        let set = self.state.locator.replicas_for_token(
+            Token::new(token),
+            &strategy,
+            datacenter,
+            &spec,
+        );
+        Some(set.into_iter().map(|(n, s)| self.view(n, s)).collect())
+    }
+
+    /// Current topology as the state holds it, sorted by host id.
+    pub fn known_nodes(&self) -> Vec<NodeSpec> {
+        let mut v: Vec<NodeSpec> = self
+            .state
+            .known_nodes
+            .values()
+            .map(|n| NodeSpec {
+                host_id: n.host_id,
+                address: n.address.into_inner(),
+                datacenter: n.datacenter.clone(),
+                rack: n.rack.clone(),
+            })
+            .collect();
+        v.sort_by_key(|n| n.host_id);
+        v
+    }
+
+    /// The real state, for hooks that need more.
+    pub fn cluster_state(&self) -> &ClusterState {
+        &self.state
+    }
+}
